@@ -38,11 +38,30 @@ const uint8_t PROFILES[][NOPS] = {
     /* C04 enumerate    */ {5, 1, 1, 8, 1, 1, 2, 0, 0, 2, 2, 4, 2, 0},
     /* C19              */ {6, 1, 1, 7, 5, 0, 3, 1, 0, 1, 0, 0, 0, 0},
     /* C16              */ {8, 1, 4, 6, 2, 1, 2, 0, 0, 0, 0, 1, 1, 1},
+    /* big tables       */ {2, 0, 0, 30, 6, 1, 6, 1, 0, 0, 0, 0, 0, 0},
 };
-const int NPROFILES = 7;
+const int NPROFILES = 8;
 const size_t KEYS[] = {1, 2, 3, 4, 8, 16, 64, 1000};
 const size_t MAXLIVE[] = {1000000, 2, 3, 4, 5, 6, 8, 12};
 const size_t SIZES[] = {1, 2, 3, 4, 5, 6, 7, 8, 11, 13, 16, 17, 24, 0, 32, 64};   // 0 = documented no-op
+// the "big tables" profile: bucket counts and element counts in the thousands (index widths, per-op work bounds)
+const size_t BIGSIZES[] = {100, 257, 1000, 1024, 1500, 2048, 3000, 4099, 10000, 20000, 50000, 1025, 2047, 1536, 6000, 333};
+const int PROFILE_BIG = 7;
+// keys are small indexes pushed through a transform chosen in the header, so that every width of key is exercised
+int g_key_xf;
+bool g_big;
+size_t key_xf(size_t k)
+{
+    switch (g_key_xf) {
+    default: return k;
+    case 1: return k + ((size_t)1 << 32);
+    case 2: return k * 7919 + ((size_t)1 << 32);
+    case 3: return k * 0x9E3779B97F4A7C15ull;
+    case 4: return SIZE_MAX - k;
+    case 5: return k << 32;
+    case 6: return (k << 20) + ((size_t)1 << 40);
+    }
+}
 
 // ---------------------------------------------------------------- hash functions
 enum { F_MOD, F_MIX, F_ZERO, F_REV, F_DIV, F_MUL, NLOGGED, F_RAWDIV = NLOGGED, F_RAWMUL, F_NULL };
@@ -104,11 +123,13 @@ struct Table {
     bool pending;           // a rehash may still be in progress
     size_t B, keyed_since;  // C19: buckets when the resize was accepted; keyed ops since
     std::map<size_t, size_t> phys;   // C19 (unique keys): key -> physical bucket
+    std::unordered_map<const void *, size_t> where;   // live element -> its key
     void init(const char *t)
     {
         tag = t;
         model.clear();
         phys.clear();
+        where.clear();
         n = 0;
         has_buckets = pending = false;
         cap = cur_n = tgt_n = B = keyed_since = 0;
@@ -150,8 +171,10 @@ Table T[2];
 
 bool live_in(Table &t, const void *p, size_t *key = nullptr)
 {
-    for (auto &kv : t.model) for (Elem *e : kv.second) if (e == p) { if (key) *key = kv.first; return true; }
-    return false;
+    auto it = t.where.find(p);
+    if (it == t.where.end()) return false;
+    if (key) *key = it->second;
+    return true;
 }
 
 // ---------------------------------------------------------------- visitors
@@ -209,6 +232,7 @@ int each_erase_visit(void *e, void *p)
         v.erase(std::find(v.begin(), v.end(), el));
         if (v.empty()) c->t->model.erase(key);
         c->t->phys.erase(key);
+        c->t->where.erase(el);
         c->t->n--;
         el->visits = -1;
         P.kill(el);
@@ -216,7 +240,7 @@ int each_erase_visit(void *e, void *p)
     }
     return 0;
 }
-struct ClearCtx { Table *t; std::vector<Elem *> expect; size_t calls; bool bad; };
+struct ClearCtx { Table *t; std::unordered_set<Elem *> expect; size_t calls; bool bad; };
 ClearCtx *g_clear;
 void clear_cb(void *e, void *priv)
 {
@@ -224,7 +248,7 @@ void clear_cb(void *e, void *priv)
     (void)priv;
     ClearCtx *c = g_clear;
     c->calls++;
-    auto it = std::find(c->expect.begin(), c->expect.end(), (Elem *)e);
+    auto it = c->expect.find((Elem *)e);
     if (it == c->expect.end()) { c->bad = true; return; }
     c->expect.erase(it);
     P.kill((Elem *)e);
@@ -349,9 +373,14 @@ void c19_forced(Table &t)
 // ---------------------------------------------------------------- ops
 void audit_all(Table &t, size_t K)
 {
-    // reject-all find per key: the offered set must equal the model's set
-    size_t lim = K <= 64 ? K : 0;
-    for (size_t k = 0; k < lim; k++) {
+    // reject-all find per key: the offered set must equal the model's set. Keys = every live key plus every
+    // key of a small universe (so that absent keys are probed too)
+    std::vector<size_t> keys;
+    for (auto &kv : t.model) keys.push_back(kv.first);
+    if (K <= 64) for (size_t i = 0; i < K; i++) if (!t.model.count(key_xf(i))) keys.push_back(key_xf(i));
+    if (K > 64) for (size_t i = 0; i < 8; i++) if (!t.model.count(key_xf(K - 1 - i * 7))) keys.push_back(key_xf(K - 1 - i * 7));
+    if (keys.size() > 3000) keys.resize(3000);
+    for (size_t k : keys) {
         FindCtx fc{&t, k, {}, 0, false, false, false};
         void *r;
         g_log.clear();
@@ -387,7 +416,7 @@ bool apply(int op, uint8_t a, uint8_t b, uint8_t c, int ntab, size_t K, size_t m
     uint64_t f0 = alloc_failures();
     switch (op) {
     case RESIZE: {
-        size_t n = SIZES[b % 16];
+        size_t n = g_big ? BIGSIZES[b % 16] : SIZES[b % 16];
         if (cx.c19 || cx.c17) { if (n == 0) n = 9; }
         int f = c % (F_NULL + 1);
         if ((cx.c19 || cx.c17) && (f == F_RAWDIV || f == F_RAWMUL)) f -= 2;      // logged variants only
@@ -463,12 +492,13 @@ bool apply(int op, uint8_t a, uint8_t b, uint8_t c, int ntab, size_t K, size_t m
         break;
     }
     case INS: {
-        size_t k = (size_t)(b | (c << 8)) % K;
+        size_t k = key_xf(((size_t)(b | (c << 8)) + (g_big ? (size_t)a * 65536 : 0)) % K);
         if (t.n >= maxlive) { CNT("noop.maxlive"); TRACE("%s insert noop", t.tag); return false; }
         if (cx.c19 && t.model.count(k)) { CNT("noop.c19_dup_key"); TRACE("%s insert noop (C19 uses unique keys)", t.tag); return false; }
         Elem *e = P.mk(k);
         LIB(cstl_hash_insert(&t.h, k, e));
         t.model[k].push_back(e);
+        t.where[e] = k;
         t.n++;
         if (was_pending_peek) { cx.ins_pending = true; CNT("class.insert.while_pending"); }
         TRACE("%s insert e%d(k%zu) n=%zu", t.tag, e->id, k, t.n);
@@ -476,7 +506,7 @@ bool apply(int op, uint8_t a, uint8_t b, uint8_t c, int ntab, size_t K, size_t m
         break;
     }
     case FIND: {
-        size_t k = (size_t)(b | (c << 8)) % K;
+        size_t k = key_xf(((size_t)(b | (c << 8)) + (g_big ? (size_t)a * 65536 : 0)) % K);
         void *r;
         LIB(r = cstl_hash_find(&t.h, k, nullptr, nullptr));
         bool have = t.model.count(k) != 0;
@@ -491,7 +521,7 @@ bool apply(int op, uint8_t a, uint8_t b, uint8_t c, int ntab, size_t K, size_t m
         break;
     }
     case FIND_V: {
-        size_t k = (size_t)(b) % K;
+        size_t k = key_xf((size_t)(b) % K);
         size_t cnt = t.model.count(k) ? t.model[k].size() : 0;
         size_t acc = (c & 1) ? 0 : (cnt ? 1 + (c >> 1) % cnt : 1);
         FindCtx fc{&t, k, {}, acc, false, false, false};
@@ -522,6 +552,7 @@ bool apply(int op, uint8_t a, uint8_t b, uint8_t c, int ntab, size_t K, size_t m
         auto &v = t.model[k];
         v.erase(std::find(v.begin(), v.end(), e));
         if (v.empty()) t.model.erase(k);
+        t.where.erase(e);
         t.n--;
         if (was_pending_peek) { cx.erase_pending = true; CNT("class.erase.while_pending"); }
         TRACE("%s erase e%d(k%zu) n=%zu", t.tag, e->id, k, t.n);
@@ -558,6 +589,7 @@ bool apply(int op, uint8_t a, uint8_t b, uint8_t c, int ntab, size_t K, size_t m
         std::swap(t.B, o.B);
         std::swap(t.keyed_since, o.keyed_since);
         std::swap(t.phys, o.phys);
+        std::swap(t.where, o.where);
         TRACE("%s swap %s", t.tag, o.tag);
         after_op(o);
         break;
@@ -612,7 +644,7 @@ bool apply(int op, uint8_t a, uint8_t b, uint8_t c, int ntab, size_t K, size_t m
     }
     case CLEAR: {
         ClearCtx cc{&t, {}, 0, false};
-        for (auto &kv : t.model) for (Elem *e : kv.second) cc.expect.push_back(e);
+        for (auto &kv : t.model) for (Elem *e : kv.second) cc.expect.insert(e);
         size_t n0 = t.n;
         bool with_cb = (c & 3) != 3 || n0 > 0;     // a NULL callback only on an empty table (elements would leak)
         bool grow_reloc = peek_relocated_beyond(t), pend = peek_pending(t);
@@ -627,6 +659,7 @@ bool apply(int op, uint8_t a, uint8_t b, uint8_t c, int ntab, size_t K, size_t m
         CHECK(cc.calls == n0 && cc.expect.empty(), "C04.clear.all", "%s clear made %zu callbacks for %zu live elements", t.tag, cc.calls, n0);
         t.model.clear();
         t.phys.clear();
+        t.where.clear();
         t.n = 0;
         t.has_buckets = t.pending = false;
         t.cap = t.cur_n = t.tgt_n = 0;
@@ -675,9 +708,13 @@ void vf_run(const uint8_t *data, size_t len)
     cx.c17 = g_prop == "C17";
     cx.c16 = g_prop == "C16";
     int ntab = 1 + cur.u8() % 2;
-    size_t K = KEYS[cur.u8() % 8];
+    uint8_t kb = cur.u8();
+    size_t K = KEYS[kb % 8];
+    g_key_xf = (kb / 8) % 8;
     size_t maxlive = MAXLIVE[cur.u8() % 8];
     int prof = cur.u8() % NPROFILES;
+    g_big = prof == PROFILE_BIG;
+    if (g_big) { K = 200000; maxlive = 1000000; }
     uint16_t badat = cur.u16();
     g_bad_kind = cur.u8() % 3;
     g_calls = 0;
@@ -738,19 +775,21 @@ void vf_run(const uint8_t *data, size_t len)
             for (auto &kv : t.model) for (Elem *e : kv.second) all.push_back(e);
             for (Elem *e : all) { LIB(cstl_hash_erase(&t.h, e)); P.kill(e); }
             t.model.clear();
+            t.where.clear();
             t.n = 0;
             after_op(t);
             LIB(cstl_hash_clear(&t.h, nullptr));
             continue;
         }
         ClearCtx cc{&t, {}, 0, false};
-        for (auto &kv : t.model) for (Elem *e : kv.second) cc.expect.push_back(e);
+        for (auto &kv : t.model) for (Elem *e : kv.second) cc.expect.insert(e);
         size_t n0 = t.n;
         g_clear = &cc;
         LIB(cstl_hash_clear(&t.h, clear_cb));
         g_clear = nullptr;
         CHECK(!cc.bad && cc.calls == n0, "C04.clear.all", "%s final clear made %zu callbacks for %zu live elements", t.tag, cc.calls, n0);
         t.model.clear();
+        t.where.clear();
         t.n = 0;
     }
     CHECK(lib_live_count() == 0, PF("C04.clear.released", "C16.hash.leak"), "clear left %zu library allocations (bucket arrays)", lib_live_count());
@@ -768,14 +807,17 @@ void vf_gen(Rng &r, std::vector<uint8_t> &out)
     out.push_back(r.byte());
     static const uint8_t kw3[] = {0, 1, 2, 3, 4, 4, 5, 5, 6, 7};
     static const uint8_t kw19[] = {4, 5, 5, 6, 6, 7};
-    out.push_back(c19 || c17 ? kw19[r.below(sizeof kw19)] : kw3[r.below(sizeof kw3)]);
+    uint8_t kidx = c19 || c17 ? kw19[r.below(sizeof kw19)] : kw3[r.below(sizeof kw3)];
+    out.push_back((uint8_t)(kidx + 8 * r.below(8)));       // key universe + key transform (small, >= 2^32, spread over 64 bits, near SIZE_MAX ...)
     out.push_back(r.chance(5, 6) ? 0 : r.byte());
-    out.push_back(c04 ? 4 : c19 ? 5 : c16 ? 6 : c17 ? (uint8_t)(r.chance(1, 2) ? 5 : 1 + r.below(4)) : (uint8_t)(1 + r.below(3)));
+    // rarely: tables with thousands of buckets and elements
+    bool big = !c04 && !c16 && !c17 && r.chance(1, 20000);
+    out.push_back(big ? (uint8_t)PROFILE_BIG : c04 ? 4 : c19 ? 5 : c16 ? 6 : c17 ? (uint8_t)(r.chance(1, 2) ? 5 : 1 + r.below(4)) : (uint8_t)(1 + r.below(3)));
     uint16_t bad = (uint16_t)(r.chance(1, 2) ? r.below(12) : r.below(120));
     out.push_back((uint8_t)bad);
     out.push_back((uint8_t)(bad >> 8));
     out.push_back(r.byte());
-    size_t n = c16 ? 6 + r.below(12) : r.chance(1, 2) ? 2 + r.below(30) : r.chance(7, 8) ? 2 + r.below(250) : 2 + r.below(1500);
+    size_t n = big ? 4000 + r.below(20000) : c16 ? 6 + r.below(12) : r.chance(1, 2) ? 2 + r.below(30) : r.chance(7, 8) ? 2 + r.below(250) : 2 + r.below(1500);
     // start with a resize so that the table is usable
     out.push_back(RESIZE); out.push_back(0); out.push_back(r.byte()); out.push_back(r.byte());
     for (size_t i = 0; i < n; i++) { out.push_back(r.byte() % 251); out.push_back(r.byte()); out.push_back(r.byte()); out.push_back(r.byte()); }
